@@ -42,6 +42,50 @@ type lw struct {
 	state  string
 	genIds map[string][]string // generated ids per location
 	allGen map[string]bool
+	f0     int64 // injected storage failures fired before the current operation
+	// ghosts (per location): canonical bodies of generated-id adds that failed
+	// or were interrupted half-way; an unknown id holding such a body is a
+	// don't-care (the engine chose the id, the caller never learnt it)
+	ghosts map[string]map[string]bool
+}
+
+func (w *lw) addGhost(loc string, it *h.Item) {
+	if it == nil {
+		return
+	}
+	if w.ghosts == nil {
+		w.ghosts = map[string]map[string]bool{}
+	}
+	if w.ghosts[loc] == nil {
+		w.ghosts[loc] = map[string]bool{}
+	}
+	w.ghosts[loc][h.CanonSet(it.Body)] = true
+}
+
+// isGhost: id is unknown to the model and holds the body of a failed generated-id add.
+func (w *lw) isGhost(loc, id string, body map[string]interface{}) bool {
+	if len(w.ghosts[loc]) == 0 {
+		return false
+	}
+	if _, ok := w.model.Loc(loc).Items[id]; ok {
+		return false
+	}
+	if body == nil {
+		js, ok := w.eng.Store.Dump(loc)[id]
+		if ok {
+			body = h.ParseMap(js)
+		} else if l, ok := w.eng.Locs[loc]; ok {
+			if got, err := l.GetFact(h.NewCtx(h.Prot{RK: w.model.ReadKeyOf(w.model.Loc(loc))}), id); err == nil {
+				body = map[string]interface{}(got)
+			}
+		}
+	}
+	if body == nil {
+		return false
+	}
+	b := h.CloneMap(body)
+	delete(b, "_id")
+	return w.ghosts[loc][h.CanonSet(b)]
 }
 
 func (w *lw) tr(f string, a ...interface{}) {
@@ -51,6 +95,9 @@ func (w *lw) tr(f string, a ...interface{}) {
 }
 
 type lwViolation struct{ v *h.Violation }
+
+// lwStop ends a run without verdict (what follows could not be judged soundly).
+type lwStop struct{ why string }
 
 // soft reports an observation-only disagreement.  When it matches an open
 // known finding the run continues (engine and model are still in step, the
@@ -81,6 +128,9 @@ func (w *lw) call(what string, f func()) {
 				panic(r)
 			}
 			if _, ok := r.(lwViolation); ok {
+				panic(r)
+			}
+			if _, ok := r.(lwStop); ok {
 				panic(r)
 			}
 			st := string(debug.Stack())
@@ -143,12 +193,16 @@ func execLocWorld(t *testing.T, plan *h.Plan, trace bool, prof lwProfile) *h.Res
 						res.Viol = v.v
 						return
 					}
+					if st, ok := r.(lwStop); ok {
+						res.Count("runs_stopped_early."+st.why, 1)
+						return
+					}
 					panic(r)
 				}
 			}()
 			for i, op := range plan.Ops {
 				w.opIdx = i
-				w.step(op)
+				w.stepFaultAware(op)
 			}
 		}()
 		res.SimNanos = int64(time.Since(start))
@@ -171,6 +225,258 @@ func execLocWorld(t *testing.T, plan *h.Plan, trace bool, prof lwProfile) *h.Res
 	}
 	res.Trace = w.trace
 	return res
+}
+
+// stepFaultAware runs one operation; if the fault plan kills the process
+// inside it (SimStorage unwinds the client with CrashSignal) every live
+// object is dropped, the engine is rebuilt from the durable content and the
+// interrupted operation is judged: each id it names is in its old or its
+// new state, nothing else changed.
+func (w *lw) stepFaultAware(op h.Op) {
+	crashed := false
+	func() {
+		defer func() {
+			if r := recover(); r != nil {
+				if _, ok := r.(h.CrashSignal); ok {
+					crashed = true
+					return
+				}
+				panic(r)
+			}
+		}()
+		w.step(op)
+	}()
+	if crashed {
+		w.afterCrash(op)
+	}
+}
+
+// applyModelOp applies a mutating operation to a model (no engine involved)
+// and returns the item a generated-id add would create.
+func applyModelOp(m *h.Model, op h.Op) *h.Item {
+	switch op.K {
+	case "addfact":
+		_, it, gen, err := m.AddFact(op.Loc, op.Id, op.Map(), prot(op))
+		if err == nil && gen {
+			return it
+		}
+	case "addrule":
+		_, it, gen, err := m.AddRule(op.Loc, op.Id, op.Map(), prot(op))
+		if err == nil && gen {
+			return it
+		}
+	case "remfact":
+		if ex, _, err := m.RemFact(op.Loc, op.Id, prot(op)); err == nil && !ex && cascadeFromUnknownIsKnown() {
+			m.CascadeFrom(op.Loc, op.Id)
+		}
+	case "remrule":
+		if ex, _, err := m.RemFact(op.Loc, op.Id, prot(op)); err == nil {
+			if !ex && cascadeFromUnknownIsKnown() {
+				m.CascadeFrom(op.Loc, op.Id)
+			}
+			m.RemFact(op.Loc, h.PropId(op.Id, "disabled"), prot(op))
+		}
+	case "enable":
+		l := m.Loc(op.Loc)
+		if m.Enabled(l) && m.CanWrite(l, prot(op)) {
+			if op.B {
+				m.RemFact(op.Loc, h.PropId(op.Id, "disabled"), prot(op))
+			} else {
+				m.AddFact(op.Loc, "", map[string]interface{}{"id": op.Id, "!disabled": true, "deleteWith": []interface{}{op.Id}}, prot(op))
+			}
+		}
+	case "setparents":
+		l := m.Loc(op.Loc)
+		if m.Enabled(l) {
+			ps := make([]interface{}, len(op.L))
+			for i, p := range op.L {
+				ps[i] = p
+			}
+			m.AddFact(op.Loc, "", map[string]interface{}{"id": "", "!parents": ps, "deleteWith": []interface{}{""}}, h.Prot{WK: m.WriteKeyOf(l)})
+		}
+	case "setprop":
+		l := m.Loc(op.Loc)
+		m.AddFact(op.Loc, "", map[string]interface{}{"id": op.Id, "!" + op.S: h.Clone(op.J), "deleteWith": []interface{}{op.Id}}, h.Prot{WK: m.WriteKeyOf(l)})
+	case "clear":
+		l := m.Loc(op.Loc)
+		if m.Enabled(l) && m.CanWrite(l, prot(op)) {
+			l.Items = map[string]*h.Item{}
+			m.Forget(op.Loc)
+		}
+	}
+	return nil
+}
+
+// cascadeFromUnknownIsKnown: while the finding "removing an unknown id still
+// deletes its dependents" is open, an interrupted or failed removal of an
+// unknown id names those dependents too.
+func cascadeFromUnknownIsKnown() bool {
+	for _, k := range h.KnownList {
+		if k.Status == "open" && k.Class == "cascade-from-unknown-id" {
+			return true
+		}
+	}
+	return false
+}
+
+// namedIds returns, per location, the ids whose model state an operation
+// changes (the ids it names: its target and its cascade set).
+func (w *lw) namedIds(op h.Op) (newM *h.Model, named map[string][]string, genItem *h.Item) {
+	old := w.model
+	old.PurgeAll()
+	newM = old.Clone()
+	genItem = applyModelOp(newM, op)
+	named = map[string][]string{}
+	for ln := range newM.Locs {
+		seen := map[string]bool{}
+		for id := range old.Loc(ln).Items {
+			seen[id] = true
+		}
+		for id := range newM.Loc(ln).Items {
+			seen[id] = true
+		}
+		for id := range seen {
+			if old.ItemKey(ln, id) != newM.ItemKey(ln, id) {
+				named[ln] = append(named[ln], id)
+			}
+		}
+		sort.Strings(named[ln])
+	}
+	return
+}
+
+func (w *lw) afterCrash(op h.Op) {
+	w.tr("CRASH inside %s; restarting from durable content", op.K)
+	w.res.Count("crash_restarts", 1)
+	newM, named, genItem := w.namedIds(op)
+	// every expired-but-unpurged id may or may not have been purged
+	for i := 0; i < 3; i++ {
+		crashedAgain := false
+		func() {
+			defer func() {
+				if r := recover(); r != nil {
+					if _, ok := r.(h.CrashSignal); ok {
+						crashedAgain = true
+						return
+					}
+					panic(r)
+				}
+			}()
+			if err := w.eng.RestartAll(true); err != nil {
+				if err == h.ErrInjected || strings.Contains(err.Error(), "injected") {
+					crashedAgain = true
+					return
+				}
+				w.fail("reload-failed", "after-crash", "rebuilding from storage after a crash failed: %v", err)
+			}
+		}()
+		if !crashedAgain {
+			break
+		}
+	}
+	m := w.model
+	for ln, ids := range named {
+		loc := w.eng.Loc(ln)
+		l := m.Loc(ln)
+		p := h.Prot{RK: m.ReadKeyOf(l)}
+		for _, id := range ids {
+			if m.IsUncertain(ln, id) {
+				continue
+			}
+			var got core.Map
+			var err error
+			w.call("GetFact", func() { got, err = loc.GetFact(h.NewCtx(p), id) })
+			g := ""
+			if err == nil {
+				g = h.CanonSet(stripId(got))
+			}
+			oldK, newK := m.ItemKey(ln, id), newM.ItemKey(ln, id)
+			switch g {
+			case newK:
+				if nit, ok := newM.Loc(ln).Items[id]; ok {
+					l.Items[id] = nit
+				} else {
+					delete(l.Items, id)
+				}
+			case oldK:
+				// keeps its old state
+			default:
+				w.fail("crash-corrupts-item", op.K, "after a crash inside %s, %s/%s = %s which is neither its old state %s nor its new state %s", op.K, ln, id, g, oldK, newK)
+			}
+		}
+	}
+	if genItem != nil {
+		// an add without id may have reached storage under a fresh id
+		ln := op.Loc
+		l := m.Loc(ln)
+		for id, js := range w.eng.Store.Dump(ln) {
+			if _, ok := l.Items[id]; ok || m.Pending[ln][id] || m.IsUncertain(ln, id) {
+				continue
+			}
+			body := h.ParseMap(js)
+			delete(body, "_id")
+			if h.CanonSet(body) == h.CanonSet(genItem.Body) {
+				w.adopt(ln, genItem, id)
+				genItem = nil
+				break
+			}
+		}
+	}
+	w.after(op)
+}
+
+// faulted handles an operation during which an injected storage failure
+// fired: the operation must report an error; the ids it names become
+// don't-cares; the model keeps its old state.
+func (w *lw) faulted(op h.Op, err error) bool {
+	if w.eng.Store.ErrorsFired() == w.f0 {
+		return false
+	}
+	w.res.Count("ops_hit_by_storage_error", 1)
+	if err == nil {
+		w.fail("acknowledged-despite-storage-failure", op.K, "%s returned success although a storage call it made failed: %s", op.K, op.String())
+	}
+	_, named, genItem := w.namedIds(op)
+	for ln, ids := range named {
+		for _, id := range ids {
+			w.model.MarkFault(ln, id)
+		}
+	}
+	w.addGhost(op.Loc, genItem)
+	w.tr("%s hit an injected storage failure -> %s; named ids %v are don't-cares", op.K, isErr(err), named)
+	for _, ids := range named {
+		for _, id := range ids {
+			if strings.HasPrefix(id, "!.") {
+				// a location-level property (parents, keys, enabled) is now
+				// unknown: nothing after this point can be judged soundly
+				panic(lwStop{"location-property-uncertain-after-fault"})
+			}
+		}
+	}
+	return true
+}
+
+// obsFaulted handles an injected failure that fired during an observation
+// (an expiry purge failed half-way): everything expired becomes a don't-care.
+func (w *lw) obsFaulted() bool {
+	if w.eng.Store.ErrorsFired() == w.f0 {
+		return false
+	}
+	w.f0 = w.eng.Store.ErrorsFired()
+	for ln, l := range w.model.Locs {
+		for id := range w.model.Pending[ln] {
+			w.model.MarkFault(ln, id)
+		}
+		for id, it := range l.Items {
+			if !w.model.Live(it) {
+				w.model.MarkFault(ln, id)
+			}
+		}
+		for id := range w.model.UncBy[ln] {
+			w.model.MarkFault(ln, id)
+		}
+	}
+	return true
 }
 
 func prot(op h.Op) h.Prot { return h.Prot{RK: op.RK, WK: op.WK} }
@@ -258,6 +564,15 @@ func (w *lw) step(op h.Op) {
 	if op.K != "sleep" {
 		m.PurgeAll()
 	}
+	// open the locations the operation touches first: a failure injected into
+	// their load is reported by NewLocation and retried, it is not part of op
+	if op.Loc != "" {
+		w.eng.Loc(op.Loc)
+	}
+	for _, pn := range op.L {
+		w.eng.Loc(pn)
+	}
+	w.f0 = w.eng.Store.ErrorsFired()
 	switch op.K {
 	case "sleep":
 		time.Sleep(time.Duration(op.N))
@@ -274,6 +589,10 @@ func (w *lw) step(op h.Op) {
 		var err error
 		w.call("AddFact", func() { id, err = loc.AddFact(h.NewCtx(prot(op)), op.Id, core.Map(op.Map())) })
 		w.tr("addfact %s %s -> %q %s", op.Id, h.Canon(body), id, isErr(err))
+		if w.faulted(op, err) {
+			w.after(op)
+			return
+		}
 		if dc && err != nil {
 			// refused for capacity while the count is ambiguous: no effect expected
 			w.after(op)
@@ -309,6 +628,10 @@ func (w *lw) step(op h.Op) {
 				_, err = loc.RemRule(h.NewCtx(prot(op)), op.Id)
 			}
 		})
+		if w.faulted(op, err) {
+			w.after(op)
+			return
+		}
 		l := m.Loc(op.Loc)
 		m.Purge(l)
 		_, inModel := l.Items[op.Id]
@@ -328,6 +651,12 @@ func (w *lw) step(op h.Op) {
 						break
 					}
 				}
+			}
+		}
+		if m.IsUncertain(op.Loc, op.Id) {
+			// whether the id was there decides whether its dependents went
+			for d := range m.Dependents(l, op.Id) {
+				m.MarkFault(op.Loc, d)
 			}
 		}
 		exists, removed, merr := m.RemFact(op.Loc, op.Id, prot(op))
@@ -354,6 +683,10 @@ func (w *lw) step(op h.Op) {
 		var err error
 		w.call("AddRule", func() { id, err = loc.AddRule(h.NewCtx(prot(op)), op.Id, core.Map(op.Map())) })
 		w.tr("addrule %s %s -> %q %s", op.Id, h.Canon(body), id, isErr(err))
+		if w.faulted(op, err) {
+			w.after(op)
+			return
+		}
 		if dc && err != nil {
 			w.after(op)
 			return
@@ -391,6 +724,10 @@ func (w *lw) step(op h.Op) {
 		var err error
 		w.call("EnableRule", func() { err = loc.EnableRule(h.NewCtx(prot(op)), op.Id, op.B) })
 		w.tr("enable %s %v -> %s", op.Id, op.B, isErr(err))
+		if w.faulted(op, err) {
+			w.after(op)
+			return
+		}
 		l := m.Loc(op.Loc)
 		var merr error
 		switch {
@@ -419,6 +756,10 @@ func (w *lw) step(op h.Op) {
 		var err error
 		w.call("SetParents", func() { _, err = loc.SetParents(h.NewCtx(prot(op)), op.L) })
 		w.tr("setparents %v -> %s", op.L, isErr(err))
+		if w.faulted(op, err) {
+			w.after(op)
+			return
+		}
 		l := m.Loc(op.Loc)
 		if !m.Enabled(l) {
 			w.agree(op, err, &h.ErrModel{Why: "location disabled"}, "disabled")
@@ -434,6 +775,10 @@ func (w *lw) step(op h.Op) {
 		var err error
 		w.call("Clear", func() { err = loc.Clear(h.NewCtx(prot(op))) })
 		w.tr("clear -> %s", isErr(err))
+		if w.faulted(op, err) {
+			w.after(op)
+			return
+		}
 		l := m.Loc(op.Loc)
 		var merr error
 		switch {
@@ -451,6 +796,12 @@ func (w *lw) step(op h.Op) {
 		var err error
 		w.call("reload", func() { err = w.eng.RestartAll(op.B) })
 		w.tr("reload crash=%v -> %s", op.B, isErr(err))
+		if err != nil && w.eng.Store.ErrorsFired() != w.f0 {
+			// the load itself hit the injected failure and reported it: open again
+			w.f0 = w.eng.Store.ErrorsFired()
+			w.call("reload", func() { err = w.eng.RestartAll(op.B) })
+			w.tr("reload again -> %s", isErr(err))
+		}
 		if err != nil {
 			w.fail("reload-failed", "reload", "rebuilding locations from storage failed: %v", err)
 		}
@@ -462,6 +813,10 @@ func (w *lw) step(op h.Op) {
 		val := op.J
 		w.call("SetProp", func() { err = loc.SetProp(h.NewCtx(prot(op)), op.Id, op.S, val) })
 		w.tr("setprop %s.%s=%v -> %s", op.Id, op.S, val, isErr(err))
+		if w.faulted(op, err) {
+			w.after(op)
+			return
+		}
 		if err == nil {
 			l := m.Loc(op.Loc)
 			m.AddFact(op.Loc, "", map[string]interface{}{"id": op.Id, "!" + op.S: h.Clone(val), "deleteWith": []interface{}{op.Id}}, h.Prot{WK: m.WriteKeyOf(l)})
@@ -625,6 +980,9 @@ func (w *lw) checkGet(locName, id string, p h.Prot, op h.Op) {
 	var err error
 	w.model.PurgeAll()
 	w.call("GetFact", func() { got, err = loc.GetFact(h.NewCtx(p), id) })
+	if w.obsFaulted() {
+		return
+	}
 	unc := w.model.IsUncertain(locName, id)
 	it, merr := w.model.Get(locName, id, p)
 	w.model.Confirm(locName, id)
@@ -697,6 +1055,9 @@ func (w *lw) checkSearch(locName string, pattern map[string]interface{}, inherit
 	var err error
 	w.model.PurgeAll()
 	w.call("SearchFacts", func() { srs, err = loc.SearchFacts(h.NewCtx(p), core.Map(h.CloneMap(pattern)), inherited) })
+	if w.obsFaulted() {
+		return
+	}
 	want, merr := w.model.Search(locName, pattern, inherited, p)
 	if me, ok := merr.(*h.ErrModel); ok && strings.HasPrefix(me.Why, "matcher:") {
 		// the pattern is outside the documented fragment (the matcher itself
@@ -716,9 +1077,31 @@ func (w *lw) checkSearch(locName string, pattern map[string]interface{}, inherit
 		return
 	}
 	got := h.ObsSearch(srs)
-	skip := func(id string) bool { return w.uncertainAnywhere(locName, id, inherited) }
+	skip := func(id string) bool { return w.uncertainAnywhere(locName, id, inherited) || w.isGhost(locName, id, nil) }
 	if d := h.DiffSets(got, want, skip); d != "" {
 		w.fail("search-mismatch", "search:"+diffKind(d), "SearchFacts(%s, %s, inherited=%v): %s", locName, h.Canon(pattern), inherited, d)
+	}
+	// data handed back by the storage back end stays intact: the JSON text of
+	// every found fact still denotes the stored fact
+	if !inherited {
+		for _, sr := range srs.Found {
+			it := w.model.Loc(locName).Items[sr.Id]
+			if it == nil || skip(sr.Id) {
+				continue
+			}
+			var body map[string]interface{}
+			func() {
+				defer func() {
+					if recover() != nil {
+						body = nil
+					}
+				}()
+				body = h.ParseMap(sr.Js)
+			}()
+			if body == nil || h.CanonSet(stripId(body)) != h.CanonSet(it.Body) {
+				w.fail("search-js-corrupt", "search:js", "SearchFacts(%s) returned Js %q for %s; the stored fact is %s", h.Canon(pattern), h.Trunc(sr.Js, 200), sr.Id, h.Canon(it.Body))
+			}
+		}
 	}
 	if len(want) > 0 {
 		w.res.Nontrivial = append(w.res.Nontrivial, "search|"+h.Canon(pattern)+"|"+w.model.StateKey())
@@ -757,6 +1140,9 @@ func (w *lw) checkDispatch(locName string, event map[string]interface{}, p h.Pro
 	var cond *core.Condition
 	w.model.PurgeAll()
 	w.call("ProcessEvent", func() { fr, cond = loc.ProcessEvent(h.NewCtx(p), core.Map(h.CloneMap(event))) })
+	if w.obsFaulted() {
+		return
+	}
 	want, merr := w.model.Dispatch(locName, event, p)
 	if me, ok := merr.(*h.ErrModel); ok && strings.HasPrefix(me.Why, "matcher:") {
 		return
@@ -952,6 +1338,9 @@ func (w *lw) checkStore(ln string) {
 			continue
 		}
 		if _, ok := l.Items[id]; !ok {
+			if w.isGhost(ln, id, h.ParseMap(dump[id])) {
+				continue
+			}
 			w.fail("stale-in-storage", "store:"+w.goneKind(ln, id), "storage still holds %s/%s = %s which the model has deleted", ln, id, h.Trunc(dump[id], 200))
 		}
 	}
@@ -982,7 +1371,7 @@ func (w *lw) checkReload(ln string, p h.Prot) {
 			w.fail("reload-differs", "search-error", "after reload SearchFacts(%s): live %s reloaded %s", h.Canon(pat), isErr(ea), isErr(eb))
 		}
 		if ea == nil {
-			skip := func(id string) bool { return w.model.IsUncertain(ln, id) }
+			skip := func(id string) bool { return w.model.IsUncertain(ln, id) || w.isGhost(ln, id, nil) }
 			if d := h.DiffSets(h.ObsSearch(b), h.ObsSearch(a), skip); d != "" {
 				w.fail("reload-differs", "search:"+diffKind(d), "after reload SearchFacts(%s, %s) differs from live: %s", ln, h.Canon(pat), d)
 			}
@@ -991,7 +1380,19 @@ func (w *lw) checkReload(ln string, p h.Prot) {
 	for _, ev := range w.batteryMaps("events") {
 		a, ea := live.SearchRules(h.NewCtx(p), core.Map(h.CloneMap(ev)), false)
 		b, eb := fresh.SearchRules(h.NewCtx(p), core.Map(h.CloneMap(ev)), false)
-		if (ea == nil) != (eb == nil) || fmt.Sprint(h.ObsRuleIds(a)) != fmt.Sprint(h.ObsRuleIds(b)) {
+		if (ea != nil && strings.Contains(ea.Error(), "is not sortable")) || (eb != nil && strings.Contains(eb.Error(), "is not sortable")) {
+			continue // known finding (array-not-sortable): whether the index sorts depends on what is indexed
+		}
+		certain := func(ids []string) []string {
+			var out []string
+			for _, id := range ids {
+				if !w.model.IsUncertain(ln, id) {
+					out = append(out, id)
+				}
+			}
+			return out
+		}
+		if (ea == nil) != (eb == nil) || fmt.Sprint(certain(h.ObsRuleIds(a))) != fmt.Sprint(certain(h.ObsRuleIds(b))) {
 			w.fail("reload-differs", "rules", "after reload SearchRules(%s, %s): live=%v %s reloaded=%v %s", ln, h.Canon(ev), h.ObsRuleIds(a), isErr(ea), h.ObsRuleIds(b), isErr(eb))
 		}
 	}
